@@ -114,7 +114,7 @@ def run_line_job(job, seed):
     return {'result': rj, 'violations': res.violations + e2_viol, 'validated': validated, 'sample': sample}
 
 
-def replay_line(job, path):
+def replay_line(job, path, lenient=False):
     '''E2 replay of a (possibly violating) path.  Returns {'clause','detail','step'} or {'final': digest}.'''
     spec = job['spec']
     mons = job['monitors']
@@ -122,7 +122,9 @@ def replay_line(job, path):
     try:
         w = None
         dg = run_e2(spec, lambda: make_monitors(mons), [tuple(x) for x in path], prefix_ok=True,
-                    trace=bool(job.get('trace')))
+                    trace=bool(job.get('trace')), lenient=lenient)
+        if lenient:
+            return {'final': dg}
         if any((m[0] if isinstance(m, (list, tuple)) else m) == 'splitinv' for m in mons):
             # the split-invariance comparison forks E1 worlds, so it is re-derived by a linear (fork-free) E1 replay;
             # the E1 emulation of a split itself is validated against real consecutive simulate() calls above
